@@ -94,6 +94,8 @@ func (StreamingCRLFileReader) ReadCRL(crlProcessor CRLProcessor, crlFilePath str
 	if err != nil {
 		return nil, err
 	}
+	//optional elements of tbsCertList can only exist in front of this position
+	tbsCertListEnd := reader.Position() + tbsCertListTL.Length.Length.Int64()
 	version := 1
 	if versionExists(reader) {
 		version, err = parseVersion(reader, version)
@@ -132,7 +134,7 @@ func (StreamingCRLFileReader) ReadCRL(crlProcessor CRLProcessor, crlFilePath str
 	if err != nil {
 		return nil, err
 	}
-	if revokedCertificateListExists(reader) {
+	if revokedCertificateListExists(reader, tbsCertListEnd) {
 		err := parseRevokedCertificateList(issuer, reader, crlProcessor)
 		if err != nil {
 			return nil, err
@@ -140,7 +142,7 @@ func (StreamingCRLFileReader) ReadCRL(crlProcessor CRLProcessor, crlFilePath str
 	}
 	var crlExtensions *[]pkix.Extension = nil
 	var crlNumber *big.Int = nil
-	if extensionsExists(reader, version) {
+	if extensionsExists(reader, version, tbsCertListEnd) {
 		crlExtensions, err = parseExtensions(reader)
 		if err != nil {
 			return nil, err
@@ -242,7 +244,10 @@ func parseExtensions(reader hashing.HashingReaderWrapper) (*[]pkix.Extension, er
 	return extensions, nil
 }
 
-func extensionsExists(reader hashing.HashingReaderWrapper, version int) bool {
+func extensionsExists(reader hashing.HashingReaderWrapper, version int, tbsCertListEnd int64) bool {
+	if reader.Position() >= tbsCertListEnd {
+		return false
+	}
 	contextSpecificTagLength, err := asn1parser.PeekTagLength(&reader, 0)
 	if err != nil {
 		return false
@@ -259,15 +264,9 @@ func parseRevokedCertificateList(issuer *pkix.RDNSequence, reader hashing.Hashin
 	if err != nil {
 		return err
 	}
-	for {
-		revokedCertSeq, err := asn1parser.PeekTagLength(&reader, 0)
-		if err != nil {
-			return err
-		}
-
-		if revokedCertSeq.Tag != asn1crypto.SEQUENCE {
-			break
-		}
+	//the list ends where its length says, whatever element follows it
+	revokedCertListEnd := reader.Position() + revokedCertListTag.Length.Length.Int64()
+	for reader.Position() < revokedCertListEnd {
 		revokedCert := new(pkix.RevokedCertificate)
 		err = asn1parser.ReadStruct(&reader, revokedCert)
 		if err != nil {
@@ -284,7 +283,10 @@ func parseRevokedCertificateList(issuer *pkix.RDNSequence, reader hashing.Hashin
 	return nil
 }
 
-func revokedCertificateListExists(reader hashing.HashingReaderWrapper) bool {
+func revokedCertificateListExists(reader hashing.HashingReaderWrapper, tbsCertListEnd int64) bool {
+	if reader.Position() >= tbsCertListEnd {
+		return false
+	}
 	length, err := asn1parser.PeekTagLength(&reader, 0)
 	if err != nil {
 		return false
@@ -331,19 +333,13 @@ func readAlgorithmIdentifier(reader asn1parser.Asn1Reader) (*pkix.AlgorithmIdent
 }
 
 func newHashingDERCRLReader(crlFile *os.File) hashing.HashingReaderWrapper {
-	var reader = hashing.HashingReaderWrapper{
-		Reader: bufio.NewReader(crlFile),
-	}
-	return reader
+	return hashing.NewHashingReaderWrapper(bufio.NewReader(crlFile))
 }
 
 func newHashingPEMCRLReader(crlFile *os.File) hashing.HashingReaderWrapper {
 	pemReader := pemreader.NewPemReader(bufio.NewReader(crlFile))
 	decoder := base64.NewDecoder(base64.StdEncoding, &pemReader)
 
-	var reader = hashing.HashingReaderWrapper{
-		Reader: bufio.NewReader(decoder),
-	}
-	return reader
+	return hashing.NewHashingReaderWrapper(bufio.NewReader(decoder))
 
 }
